@@ -10,10 +10,10 @@ CHECKS = {
     "C02": ("fault_enumeration", "crash enumeration over the storage-operation journal with before-or-after model oracle and usability continuation",
             "Every prefix of the journal of mutating storage operations of each recorded history (writer, replica, make_read_only) is materialised, reopened and compared with the model before/after the interrupted call, then a continuation must satisfy the model. Exhaustive per history over crash points; histories bounded-exhaustive + random.",
             "operations atomic and persisted in issue order (the property's fault model)", "3 C02"),
-    "C03": ("exploration", "runtime monitor over writer/replica sessions: honest proofs for well-formed requests must be accepted, replica observation compared with a replica model after every round, convergence check",
+    "C03": ("exploration", "runtime monitor over writer/replica sessions: honest proofs for well-formed requests must be accepted, replica observation compared with a replica model after every round, convergence check; node cache off/default/tiny",
             "Held on every replication session executed: all request sequences up to the bound over small logs for every first-upgrade length, plus random sessions with growth rounds, clears and replica reopens, one 33k and one 70k-block log.",
             "well-formedness of a request is W1-W5 of DESIGN.md 2.4", "3 C03"),
-    "C04": ("exploration", "alteration battery on replica clones: every single-field alteration, stale proofs and systematic forgeries of every honest proof; must-refuse / unchanged-on-refusal / harmless-on-acceptance oracles",
+    "C04": ("exploration", "alteration battery on replica clones: every single-field alteration, stale proofs and systematic forgeries of every honest proof; must-refuse / unchanged-on-refusal / harmless-on-acceptance oracles; replica node cache off/default/tiny",
             "Held on every altered proof applied (millions per run): complete over fields and node positions per honest proof, bit positions sampled.",
             "clones verified unchanged (observation and store bytes) after each refusal; numeric fields < 2^40", "3 C04"),
     "C07": ("fault_enumeration", "crash enumeration plus byte-prefix tears of the in-flight write, same oracle",
@@ -26,15 +26,15 @@ CHECKS = {
             "Held on tens of millions of create_proof / verify_and_apply_proof calls over 15 core kinds in two builds; no panic, abort, runaway or hang; cores usable afterwards.",
             "numeric fields < 2^40; hang = per-case watchdog confirmed by solo re-run; worker address space capped at 6 GB", "3 C09"),
     "C10": ("fault_enumeration", "single-fault injection at every storage operation index (reads included) of each history; error-surfacing and recover-by-reopen oracle; replica and proof-serving variants",
-            "For every history every operation index k is failed once: the call must return Err, reopening must give the before-or-after model state, the rest of the history must satisfy the model.",
+            "For every history every operation index k is failed once: the call must return Err, reopening must give the before-or-after model state (length, bytes, has, contiguous length, writability), the rest of the history must satisfy the model.",
             "a failed operation is not applied; one fault per run", "3 C10"),
-    "C12": ("fault_enumeration", "runtime monitor for NotWritable / zero storage ops on secret-less cores, byte scan of all store images for key material after make_read_only, crash enumeration inside make_read_only, builder gate",
+    "C12": ("fault_enumeration", "runtime monitor for NotWritable / zero storage ops on secret-less cores, byte scan of all store images for key material after make_read_only, crash enumeration (with byte-prefix tears for a third of the histories) inside make_read_only, builder gate for every kind of key pair",
             "Held on every history executed with make_read_only at every position of short histories (exhaustive) and random positions of long ones, all crash points inside the call, replicas.",
             "payloads cannot contain key material (pseudo-random)", "3 C12"),
     "C13": ("exploration", "event monitor: every subscriber drained after every public call and compared with the expected event list; union-of-announcements check",
             "Held on every writer history and replica session executed (honest, stale, altered proofs, refused appends, appends failed by injected storage faults), 1-3 subscribers.",
             "subscribers always drained (< 32 pending events)", "3 C13"),
-    "C05": ("exploration", "independent re-implementation (reference Merkle tree, root hash, signable, Ed25519 verify_strict, independent proof verifier) compared with raw tree/oplog bytes after every op and with every node of every honest proof",
+    "C05": ("exploration", "independent re-implementation (reference Merkle tree, root hash, signable, Ed25519 verify_strict, independent proof verifier) compared with raw tree/oplog bytes after every op and with every node of every honest proof (served by the writer or by a replica); replica-persisted nodes and held leaves; node cache off/default/tiny",
             "Held on every log length 1..130 (all root-set shapes), random histories, and all honest proofs of the sessions executed; relative to an independent implementation anchored on JS-certified bytes and known-answer vectors, not to the JS program.",
             "BLAKE2b and Ed25519 primitives trusted (pinned by KATs); reference written from the scheme description", "3 C05"),
     "C06": ("exploration", "independent layout reader decodes the four store images at every operation boundary and must reproduce the API-reported state; golden SHA-256 file hashes of the interop scenario; reverse: synthetic JS-valid layouts opened by the crate",
@@ -43,12 +43,12 @@ CHECKS = {
     "C11": ("exploration", "encode/decode monitor against an independent compact-encoding encoder: sizes, bytes, remainders, round trip, every strict prefix; release and overflow-checked debug builds",
             "Held on the full integer-boundary cross products per type, all byte-string lengths 0..300, all node-list lengths 0..8 and random values; hundreds of millions of prefix decodes.",
             "independent encoder = refimpl::{enc_uint, enc_buf}", "3 C11"),
-    "C14": ("exploration", "differential execution: the same script under {instrumented, real memory, real disk} backends x {cache off, default, tiny}; results, observations and file bytes compared step by step; golden hashes on every backend; thorough: cross-build trace hashes (cache feature off, sparse off)",
+    "C14": ("exploration", "differential execution: the same script under {instrumented, real memory, real disk} backends x {cache off, default, tiny}; scripts of honest rounds, ill-formed requests and altered proofs; results, observations and file bytes compared step by step; golden hashes on every backend; thorough: cross-build trace hashes (cache feature off, sparse off)",
             "Held on every script/configuration pair executed; first differing step is reported with both sides.",
             "data store compared up to trailing zero-filled holes; disk runs with per-operation sync", "3 C14"),
-    "C15": ("exploration", "deterministic scheduler (all schedules by DFS for the smallest configurations, seeded PCT/random otherwise) over a backend that suspends at every storage operation; linearizability checked against the plain Hypercore as sequential specification plus closed-form checks",
+    "C15": ("exploration", "deterministic scheduler (all schedules by DFS for the smallest configurations, seeded PCT/random otherwise) over a backend that suspends at every storage operation, fair-lock schedules in which lock acquisitions are preemption points, OS-thread runs; linearizability checked against the plain Hypercore as sequential specification plus closed-form checks",
             "Held on every schedule executed (hundreds of thousands per run); DFS exhaustive for 23 of 24 smallest configurations in quick.",
-            "cooperative preemption points only (pre-call, storage operations, lock hand-over); OS schedules only in the sanitizer lanes", "3 C15"),
+            "cooperative preemption points (pre-call, storage operations, contended lock; in the fair-lock schedules every lock acquisition while another task waits); OS schedules in the threaded runs and sanitizer lanes", "3 C15"),
 }
 
 NOT_YET = {}
